@@ -30,6 +30,7 @@ type SpecEnv struct {
 	pkg   *types.Package
 	depth int
 	cur   *State // inside old(): the state in which program locals are read
+	prev  *State // loop body relations: the state at the loop head of the current iteration
 }
 
 func (vc *VC) specEnvFor(fx *FuncCtx, st *State, fr *Frame) *SpecEnv {
@@ -758,6 +759,8 @@ func (e *SpecEnv) refKey(i *SV) *Term {
 		return e.stateOf(i).ptrTerm(v)
 	case *IfaceV:
 		return v.Data
+	case *SliceV:
+		return v.Arr
 	}
 	panic("ghost map key of unsupported shape")
 }
@@ -840,6 +843,25 @@ func (e *SpecEnv) evalCall(x *SX) (*SV, error) {
 				r = SV{V: e.old.load(r.Place), T: r.T, St: e.old}
 			}
 			return &r, nil
+		case "prev":
+			if e.prev == nil || len(args) != 1 {
+				return nil, fmt.Errorf("prev() is only meaningful in an `iterates` clause")
+			}
+			pe := *e
+			pe.st = e.prev
+			pe.cur = nil
+			pe.prev = nil
+			v, err := pe.eval(args[0])
+			if err != nil {
+				return nil, err
+			}
+			r := *v
+			if r.Place != nil {
+				r = SV{V: pe.value(v), T: v.T, St: e.prev}
+			} else if r.St == nil {
+				r.St = e.prev
+			}
+			return &r, nil
 		case "len":
 			v, err := e.eval(args[0])
 			if err != nil {
@@ -898,6 +920,13 @@ func (e *SpecEnv) evalCall(x *SX) (*SV, error) {
 				return nil, err
 			}
 			return &SV{V: e.refKey(v), T: ghostType{IntSort}}, nil
+		case "fresh":
+			// fresh(x): the object x refers to (pointer, slice backing array) was allocated during this call
+			v, err := e.eval(args[0])
+			if err != nil {
+				return nil, err
+			}
+			return &SV{V: Ge(e.refKey(v), e.vc.A0), T: types.Typ[types.Bool]}, nil
 		case "sent":
 			// sent(ch): number of messages placed on channel ch so far (ghost)
 			v, err := e.eval(args[0])
@@ -1235,6 +1264,9 @@ func (e *SpecEnv) callGo(fn *SX, args []*SX) (*SV, bool, error) {
 		e.vc.inlineLimit = 400
 		res = e.vc.inline(fx, st, sfn, vals, nil, rt)
 		e.vc.inlineLimit = saved
+		if fcx != nil {
+			e.vc.assumeAfterInline(st, fcx, sfn.Signature, vals, res)
+		}
 	} else {
 		res = e.vc.callFunction(fx, st, sfn, vals, nil, rt, nil)
 	}
